@@ -32,13 +32,15 @@ OUR_RID = '10.0.0.5'
 OUR_RID_INT = 0x0A000005
 
 CAPS = [build.cap_mp(1, 1), build.cap_mp(2, 1), build.cap_asn4(PEER_AS), build.cap_refresh(), build.cap_erefresh()]
+# capabilities every OPEN of the remote speaker carries on top of CAPS while a case runs (set and emptied by the check)
+EXTRA_CAPS: list = []
 
 
 def open_body(variant: str = 'valid', hold: int = 30) -> bytes:
     rid = 0x0A000009  # higher than ours
     asn = PEER_AS
     version = 4
-    caps = list(CAPS)
+    caps = list(CAPS) + list(EXTRA_CAPS)
     params = None
     if variant == 'rid-low':
         rid = 0x0A000001
@@ -161,7 +163,7 @@ UPDATE_SOFT_FAULTS = {
 }
 
 
-def config(passive: bool = False, hold: int = 30, routes: list[str] | None = None, api: bool = True, extra: str = '', families: list[str] | None = None, mirror_as: bool = False) -> str:
+def config(passive: bool = False, hold: int = 30, routes: list[str] | None = None, api: bool = True, extra: str = '', families: list[str] | None = None, mirror_as: bool = False, capability: dict | None = None) -> str:
     body = ''
     if api:
         body += nh.api_section(receive=['parsed', 'update', 'notification', 'open', 'keepalive', 'refresh'], send=['parsed', 'update', 'notification', 'open', 'keepalive', 'refresh'])
@@ -176,7 +178,7 @@ def config(passive: bool = False, hold: int = 30, routes: list[str] | None = Non
         router_id=OUR_RID,
         hold=hold,
         families=families or ['ipv4 unicast', 'ipv6 unicast'],
-        capability={'asn4': 'enable', 'route-refresh': 'enable'},
+        capability=dict({'asn4': 'enable', 'route-refresh': 'enable'}, **(capability or {})),
         extra=ex.strip('\n'),
         body=body,
     )
